@@ -21,6 +21,7 @@ from typing import Dict, List, Optional, Set
 
 import sympy as sp
 
+from ..consteval import Folder, Raised, Undecidable
 from ..index import AnalysisError, FunctionInfo, Index, full, norm, own_nodes
 from ..report import Report
 from ..rules import siblings as sib
@@ -81,9 +82,9 @@ def run(idx: Index, rep: Report, tier: str):
     check_frequency_split(idx, rep)
     check_cirq_record_assembly(idx, rep)
     check_collapse_numeric(idx, rep)
-    check_per_shot_products(idx, rep)
     from .C01 import check_cirq_initial_state
     check_cirq_initial_state(idx, rep)          # the unconditioned distribution and its branches start from the same supplied state on every cirq path
+    check_per_shot_products(idx, rep)
 
 
 def check_simulate_forwarding(idx: Index, rep: Report):
@@ -245,7 +246,12 @@ def check_probability_flow(idx: Index, rep: Report):
         rep.decide(ok, rule, f, st, text=f"_probabilities[{key}] = {norm(st.value)}", what="the branch probability is recorded under its outcome string",
                    reason=f"stored {norm(st.value)} under {key}")
     inits = [n for n in own_nodes(f.node) if isinstance(n, ast.Assign) and norm(n.targets[0]) == "success_probability"]
-    ok = bool(inits) and all(norm(n.value) in ("1", "1.0") for n in inits)
+    def _is_one(e) -> bool:
+        try:
+            return Folder().expr(e) == 1
+        except (Undecidable, Raised):
+            raise AnalysisError(f"initial value of success_probability not foldable: {norm(e)}")
+    ok = bool(inits) and all(_is_one(n.value) for n in inits)
     rep.decide(ok, rule, f, inits[0] if inits else f.node, text="success_probability starts at 1", what="the running product starts at one for every shot / request",
                reason="running product not initialised to 1")
     # requested outcome characters are consumed in order
